@@ -48,7 +48,7 @@ def modifier_queries():
             for dist in (None, "distinct", "reduced"):
                 for proj in (["*"], ["s"], ["v", "w"], ["w"]):
                     for lim, off in ((None, None), (2, None), (None, 1), (1, 1), (0, None), (3, 2), (None, 9), (2, 0)):
-                        if dist == "reduced" and (keys or lim is not None or off is not None):
+                        if dist == "reduced" and off is not None:
                             continue
                         q = {"form": "select", "proj": proj, "where": w}
                         if keys:
@@ -94,6 +94,45 @@ def aggregate_queries():
                            "having": {"agg": a1, "op": ">", "n": hv}})
             qs.append({"form": "select", "proj": gb + ["c"], "where": w, "groupby": [ev(x) for x in gb], "aggs": [agg("sum", "v", as_="c")],
                        "having": {"agg": agg("sum", "v", as_="c"), "op": ">=", "n": 3}})
+            # the same function over the same expression with and without DISTINCT in one query (either order), also split between SELECT and HAVING
+            if "v" in qgen._pat_vars(w):
+                for f in ("count", "sum"):
+                    for first in (False, True):
+                        qs.append({"form": "select", "proj": gb + ["c", "d"], "where": w, "groupby": [ev(x) for x in gb],
+                                   "aggs": [agg(f, "v", first, as_="c"), agg(f, "v", not first, as_="d")]})
+                qs.append({"form": "select", "proj": gb + ["c"], "where": w, "groupby": [ev(x) for x in gb], "aggs": [agg("sum", "v", as_="c")],
+                           "having": {"agg": agg("sum", "v", True, as_="c"), "op": ">=", "n": 3}})
+                qs.append({"form": "select", "proj": gb + ["c"], "where": w, "groupby": [ev(x) for x in gb], "aggs": [agg("count", "v", True, as_="c")],
+                           "having": {"agg": agg("count", "v", as_="c"), "op": ">", "n": 1}})
+    return qs
+
+
+def D(n, d=1):
+    return {"k": "dec", "n": n, "d": d}
+
+
+# the same number written as different terms under the first sort key: the second key has to decide
+MIXED_DATA = [
+    [[I("n1"), I("p"), N(1)], [I("n2"), I("p"), D(1)], [I("n3"), I("p"), N(1)], [I("n4"), I("p"), D(2)], [I("n5"), I("p"), N(2)], [I("n6"), I("p"), D(1, 2)],
+     [I("n1"), I("q"), S("c")], [I("n2"), I("q"), S("a")], [I("n3"), I("q"), S("b")], [I("n4"), I("q"), S("a")], [I("n5"), I("q"), S("b")]],
+    [[I("n3"), I("p"), D(1)], [I("n2"), I("p"), N(1)], [I("n1"), I("p"), D(1)], [I("n1"), I("q"), S("x")], [I("n2"), I("q"), S("y")], [I("n3"), I("q"), S("z")]],
+]
+
+
+def mixed_queries():
+    qs = []
+    w1 = grp(bgp((V("s"), I("p"), V("v"))))
+    w2 = grp(bgp((V("s"), I("p"), V("v"))), {"t": "optional", "g": grp(bgp((V("s"), I("q"), V("w"))))})
+    for w in (w1, w2):
+        for keys in ([("v", False), ("s", False)], [("v", False), ("s", True)], [("v", True), ("s", False)], [("v", True), ("s", True)], [("v", False), ("w", False)],
+                     [("v", False), ("w", True)], [("v", True), ("w", True), ("s", False)]):
+            if any(k == "w" for k, _ in keys) and w is w1:
+                continue
+            for lim in (None, 2, 3):
+                q = {"form": "select", "proj": ["*"], "where": w, "orderby": [{"e": ev(k), "desc": d} for k, d in keys]}
+                if lim:
+                    q["limit"] = lim
+                qs.append(q)
     return qs
 
 
@@ -121,5 +160,10 @@ def run(out, tier, seed):
             if quick and (qi + di) % 2 != seed % 2:
                 continue
             jobs.append({"cfg": {"facade": "graph"}, "events": [data, {"op": "query", "q": q}]})
+    for d in MIXED_DATA:
+        for order in (0, 1):
+            data = {"op": "data", "quads": [t + ["D"] for t in (d if order == 0 else list(reversed(d)))], "graphs": []}
+            for q in mixed_queries():
+                jobs.append({"cfg": {"facade": "graph"}, "events": [data, {"op": "query", "q": q}]})
     out.exhaustive = not quick
     out.conform(__name__, TRACE, jobs, nontrivial=nontrivial, chunk=400, par=16)
